@@ -14,14 +14,35 @@ import (
 	"os"
 	"path/filepath"
 	"reflect"
+	"runtime"
 	"sort"
 	"strconv"
 	"strings"
 )
 
+// fail stops the generator that called it: main reports the failure together with the table the
+// generator writes (TRANSLATOR-FAILED <file>: ...), goes on with the other generators and exits 2,
+// so that only the properties whose proofs read that table lose their tie to the source.
+type translatorFailure struct{ msg string }
+
 func fail(format string, a ...interface{}) {
-	fmt.Fprintf(os.Stderr, "TRANSLATOR: "+format+"\n", a...)
-	os.Exit(2)
+	panic(translatorFailure{fmt.Sprintf(format, a...)})
+}
+
+var failures int
+
+func runGen(output string, g func()) {
+	defer func() {
+		if r := recover(); r != nil {
+			f, ok := r.(translatorFailure)
+			if !ok {
+				f = translatorFailure{fmt.Sprintf("generator panicked: %v", r)}
+			}
+			failures++
+			fmt.Fprintf(os.Stderr, "TRANSLATOR-FAILED %s: TRANSLATOR: %s\n", output, f.msg)
+		}
+	}()
+	g()
 }
 
 type pkg struct {
@@ -739,12 +760,16 @@ func main() {
 	if out, err = filepath.Abs(out); err != nil {
 		fail("%v", err)
 	}
-	genConsts(repo, out)
-	genVersions(repo, out)
-	genRedact(repo, out)
-	genExtra(repo, out)
-	for _, g := range extraGens {
-		g(repo, out)
+	runGen("GenConsts", func() { genConsts(repo, out) })
+	runGen("GenVersions", func() { genVersions(repo, out) })
+	runGen("GenRedact", func() { genRedact(repo, out) })
+	runGen("GenStrip", func() { genExtra(repo, out) })
+	for i, g := range extraGens {
+		g := g
+		runGen(extraGenOutputs[i], func() { g(repo, out) })
+	}
+	if failures > 0 {
+		os.Exit(2)
 	}
 }
 
@@ -752,4 +777,21 @@ func main() {
 // property that needs more tables: gen_cXX.go with func init() { registerGen(...) }).
 var extraGens []func(repo, out string)
 
-func registerGen(g func(repo, out string)) { extraGens = append(extraGens, g) }
+// the table a registered generator writes, from the name of the file that registers it:
+// gen_cNN.go writes GenCNN.v (gen_c18.go: GenSites.v)
+var extraGenOutputs []string
+
+func registerGen(g func(repo, out string)) {
+	extraGens = append(extraGens, g)
+	name := "?"
+	if _, file, _, ok := runtime.Caller(1); ok {
+		base := strings.TrimSuffix(filepath.Base(file), ".go")
+		switch {
+		case base == "gen_c18":
+			name = "GenSites"
+		case strings.HasPrefix(base, "gen_c"):
+			name = "GenC" + strings.TrimPrefix(base, "gen_c")
+		}
+	}
+	extraGenOutputs = append(extraGenOutputs, name)
+}
